@@ -614,7 +614,6 @@ func paddingBounded(c *Ctx, rule string) {
 	c.Floor(rule+" padding slices", nb, 1, "spaces[:thisChunk]")
 }
 
-
 // R5 verbatim: the command-line formatter hands the formatted bytes on as they are.
 func c09Verbatim(c *Ctx) {
 	c.Rule("R5 verbatim: in cmd/hclfmt and hclwrite no call of a printf-style function (a fmt or log function with a `format string` parameter) has a format made from a byte slice (string(b), concatenations and Sprint of it), and at least one call writes the result of hclwrite.Format with Write/WriteFile: formatted source is data, never a format string (every % in it — template directives, the modulo operator, format() calls — would be interpreted)")
@@ -663,7 +662,6 @@ func c09Verbatim(c *Ctx) {
 	c.Floor("verbatim printf calls", n, 3, "messages of hclfmt and hclwrite")
 	c.Floor("verbatim raw writes in cmd/hclfmt", writes, 1, "os.Stdout.Write / os.WriteFile of the formatted bytes")
 }
-
 
 // formatFromBytes: the string is (made from) a conversion of a []byte.
 func formatFromBytes(v ssa.Value, seen map[ssa.Value]bool, d int) bool {
